@@ -509,12 +509,18 @@ class HostConnection(object):
         log.debug("Replacing connection (%s) to %s", id(connection), self.host)
         try:
             conn = self._session.cluster.connection_factory(self.host.endpoint, on_orphaned_stream_released=self.on_orphaned_stream_released)
-            if self._keyspace:
-                conn.set_keyspace_blocking(self._keyspace)
-            with self._lock:
-                is_shutdown = self.is_shutdown
-                if not is_shutdown:
-                    self._connection = conn
+            while True:
+                keyspace = self._keyspace
+                if keyspace:
+                    conn.set_keyspace_blocking(keyspace)
+                with self._lock:
+                    is_shutdown = self.is_shutdown
+                    # a keyspace switch that came during the USE found no connection and only recorded the name
+                    is_current = self._keyspace == keyspace
+                    if is_current and not is_shutdown:
+                        self._connection = conn
+                if is_current or is_shutdown:
+                    break
             if is_shutdown:
                 # the pool was shut down while the replacement was being opened
                 conn.close()
@@ -561,7 +567,8 @@ class HostConnection(object):
 
     def _set_keyspace_for_all_conns(self, keyspace, callback):
         # remember the keyspace even without a connection: the next connection (see _replace) selects it
-        self._keyspace = keyspace
+        with self._lock:
+            self._keyspace = keyspace
         if self.is_shutdown or not self._connection:
             callback(self, [])
             return
